@@ -98,8 +98,8 @@ const (
 type dbEvent struct {
 	seq    int // position in the log (1-based); the harness interleaves its own marks by reading len(log)
 	op     string
-	client int // client (task) on whose goroutine the driver was called
-	tag    int // statement tag parsed from the query text (0 when not a statement): 100*client + statement number
+	client int // client (task) on whose goroutine the driver was called; for commit / rollback: the client that began the transaction
+	tag    int // statement tag parsed from the query text (0 when not a statement): 100*client + statement number; the fault maps are keyed by it
 	conn   int
 	tx     int // transaction number on this database (0 outside a transaction)
 	err    error
@@ -111,7 +111,10 @@ func (e dbEvent) String() string {
 		s += fmt.Sprintf(" tx=%d", e.tx)
 	}
 	if e.tag != 0 {
-		s += fmt.Sprintf(" stmt=%d", e.tag)
+		s += fmt.Sprintf(" stmt=%d", e.tag%100)
+		if e.tag >= 100 {
+			s += fmt.Sprintf("/c%d", e.tag/100)
+		}
 	}
 	s += ")"
 	if e.err != nil {
@@ -212,7 +215,7 @@ func logString(log []dbEvent) string {
 	return strings.Join(parts, " ")
 }
 
-// stmtTag parses the statement number out of "/*s<k>*/ ...".
+// stmtTag parses the statement tag (100*client + statement number) out of "/*s<tag>*/ ...".
 func stmtTag(q string) int {
 	var k int
 	if _, err := fmt.Sscanf(q, "/*s%d*/", &k); err != nil {
@@ -263,19 +266,22 @@ func (c *simConn) BeginTx(context.Context, driver.TxOptions) (driver.Tx, error) 
 	db.ntx++
 	c.tx = db.ntx
 	db.recordLocked(dbEvent{op: opBegin, client: cl, conn: c.id, tx: c.tx})
-	return &simTx{c: c, n: c.tx}, nil
+	return &simTx{c: c, n: c.tx, owner: cl}, nil
 }
 
 type simTx struct {
-	c *simConn
-	n int
+	c     *simConn
+	n     int
+	owner int // client that began the transaction
 }
 
+// end is attributed to the owner of the transaction, not to the calling goroutine: database/sql
+// may roll back from its own watcher goroutine.
 func (t *simTx) end(op string) error {
 	db := t.c.db
 	db.mu.Lock()
 	defer db.mu.Unlock()
-	cl := db.who()
+	cl := t.owner
 	var err error
 	if p := db.plan(cl); (op == opCommit && p.failCommit) || (op == opRollback && p.failRollback) {
 		err = db.injected(cl, op)
